@@ -75,6 +75,8 @@ pub struct DfsStats {
     /// largest deviation bound fully explored (None = unbounded, exhaustive)
     pub bound: Option<usize>,
     pub pruned_by_bound: u64,
+    /// subtrees left unexplored because the per-item execution budget was used up (to be re-queued)
+    pub remaining: Vec<Vec<u32>>,
 }
 
 /// Depth-first enumeration of every choice sequence with at most `bound` costly deviations.
@@ -83,6 +85,20 @@ pub struct DfsStats {
 pub fn dfs<O>(
     bound: Option<usize>,
     cap: u64,
+    run: impl FnMut(&mut Chooser) -> O,
+    visit: impl FnMut(&Chooser, O) -> bool,
+) -> DfsStats {
+    dfs_from(bound, cap, &[], false, u64::MAX, run, visit)
+}
+
+/// As `dfs`, but the search starts at `start` (a decision prefix) instead of the empty prefix;
+/// with `single` only that one execution is run.
+pub fn dfs_from<O>(
+    bound: Option<usize>,
+    cap: u64,
+    start: &[u32],
+    single: bool,
+    spill_after: u64,
     mut run: impl FnMut(&mut Chooser) -> O,
     mut visit: impl FnMut(&Chooser, O) -> bool,
 ) -> DfsStats {
@@ -90,7 +106,7 @@ pub fn dfs<O>(
         bound,
         ..Default::default()
     };
-    let mut stack: Vec<Vec<u32>> = vec![vec![]];
+    let mut stack: Vec<Vec<u32>> = vec![start.to_vec()];
     while let Some(prefix) = stack.pop() {
         let mut ch = Chooser::new(&prefix);
         let o = run(&mut ch);
@@ -101,25 +117,11 @@ pub fn dfs<O>(
         if ch.horizon_hit {
             st.horizon_hits += 1;
         }
-        let used: usize = ch
-            .taken
-            .iter()
-            .zip(ch.costs.iter())
-            .take(prefix.len())
-            .filter(|(t, c)| **t != 0 && **c > 0)
-            .count();
-        for i in (prefix.len()..ch.taken.len()).rev() {
-            st.max_width = st.max_width.max(ch.widths[i]);
-            let cost = ch.costs[i] as usize;
-            if let Some(b) = bound {
-                if cost > 0 && used + cost > b {
-                    st.pruned_by_bound += (ch.widths[i] - 1) as u64;
-                    continue;
-                }
-            }
-            for alt in (1..ch.widths[i]).rev() {
-                let mut p = ch.taken[..i].to_vec();
-                p.push(alt);
+        for w in &ch.widths {
+            st.max_width = st.max_width.max(*w);
+        }
+        if !single {
+            for p in children(&ch, prefix.len(), bound, &mut st.pruned_by_bound).into_iter().rev() {
                 stack.push(p);
             }
         }
@@ -131,8 +133,63 @@ pub fn dfs<O>(
             st.capped = true;
             break;
         }
+        if st.executions >= spill_after && !stack.is_empty() {
+            st.remaining = std::mem::take(&mut stack);
+            break;
+        }
     }
     st
+}
+
+/// the prefixes that extend the execution `ch` (which replayed `plen` decisions) by one deviation
+pub fn children(ch: &Chooser, plen: usize, bound: Option<usize>, pruned: &mut u64) -> Vec<Vec<u32>> {
+    let used: usize = ch
+        .taken
+        .iter()
+        .zip(ch.costs.iter())
+        .take(plen)
+        .filter(|(t, c)| **t != 0 && **c > 0)
+        .count();
+    let mut v = vec![];
+    for i in plen..ch.taken.len() {
+        let cost = ch.costs[i] as usize;
+        if let Some(b) = bound {
+            if cost > 0 && used + cost > b {
+                *pruned += (ch.widths[i] - 1) as u64;
+                continue;
+            }
+        }
+        for alt in 1..ch.widths[i] {
+            let mut p = ch.taken[..i].to_vec();
+            p.push(alt);
+            v.push(p);
+        }
+    }
+    v
+}
+
+/// Split the search tree into work items: expands prefixes breadth-first until at least `target`
+/// unexpanded subtrees exist. Returns (expanded prefixes = single executions, subtree roots).
+pub fn split_frontier(bound: Option<usize>, target: usize, mut run: impl FnMut(&mut Chooser)) -> (Vec<Vec<u32>>, Vec<Vec<u32>>) {
+    let mut queue: std::collections::VecDeque<Vec<u32>> = std::collections::VecDeque::new();
+    queue.push_back(vec![]);
+    let mut singles = vec![];
+    let mut expansions = 0;
+    while queue.len() < target && expansions < target {
+        let p = match queue.pop_front() {
+            Some(p) => p,
+            None => break,
+        };
+        let mut ch = Chooser::new(&p);
+        run(&mut ch);
+        expansions += 1;
+        let mut pruned = 0;
+        for c in children(&ch, p.len(), bound, &mut pruned) {
+            queue.push_back(c);
+        }
+        singles.push(p);
+    }
+    (singles, queue.into_iter().collect())
 }
 
 /// 64-bit FNV-1a, stable across runs and processes
